@@ -51,12 +51,12 @@ type c22Machine struct {
 	hist  []string
 	done  bool
 
-	joined                        bool
-	nLoads, nBoots, nSQLLoads     int
-	nInvalid                      int
-	snapAfterLoad, durAfterLoad   bool // snapshot / restart-or-join after a load or boot
-	loadedOnce                    bool
-	invalidKinds                  map[string]bool
+	joined                      bool
+	nLoads, nBoots, nSQLLoads   int
+	nInvalid                    int
+	snapAfterLoad, durAfterLoad bool // snapshot / restart-or-join after a load or boot
+	loadedOnce                  bool
+	invalidKinds                map[string]bool
 }
 
 const c22Heartbeat = 300 * time.Millisecond
@@ -92,13 +92,10 @@ func (m *c22Machine) settle() bool {
 	}
 	deadline := time.Now().Add(40 * time.Second)
 	for _, n := range m.nodes {
-		for n.s.raft.AppliedIndex() < l.raft.LastIndex() || n.s.fsmIdx.Load() < l.fsmIdx.Load() {
-			if time.Now().After(deadline) {
-				m.rec.Label("inconclusive:follower-did-not-catch-up")
-				m.done = true
-				return false
-			}
-			time.Sleep(20 * time.Millisecond)
+		if !g8aWaitApplied(l, n.s, deadline) {
+			m.rec.Label("inconclusive:follower-did-not-catch-up")
+			m.done = true
+			return false
 		}
 	}
 	return true
@@ -273,13 +270,20 @@ func (m *c22Machine) loadSQL() {
 		}
 		m.fail("C22/sql-load-error", "SQL-text load failed: %v", err)
 	}
+	liveErr := ""
 	for _, r := range res {
 		if r.GetError() != "" {
-			m.fail("C22/sql-load-error", "SQL-text load of valid statements reported %q", r.GetError())
+			liveErr = r.GetError()
 		}
 	}
-	if _, err := m.model.db.Exec(text); err != nil {
-		m.rt.Skip("model rejects text")
+	// the text is one transaction: SQLite runs it up to the first failing
+	// statement; rqlite then rolls back (RollbackOnError), so does the model
+	_, modelErr := m.model.db.Exec(text)
+	if modelErr != nil {
+		m.model.db.Exec("ROLLBACK")
+	}
+	if (modelErr != nil) != (liveErr != "") {
+		m.fail("C22/sql-load-result-mismatch", "SQL-text load: node reported %q, SQLite (model) reported %v", liveErr, modelErr)
 	}
 	m.nSQLLoads++
 	m.hist = append(m.hist, fmt.Sprintf("SQLLOAD(%d bytes)", len(text)))
@@ -494,7 +498,6 @@ func c22Case(rt *rapid.T, rec *vstat.Rec) {
 		"sql-load":  guard(m.loadSQL),
 		"boot":      guard(m.boot),
 		"invalid":   invalidStep,
-		"invalid-2": invalidStep,
 		"snapshot":  snapStep,
 		"snapshot2": snapStep,
 		"restart": guard(func() {
